@@ -86,6 +86,10 @@ func (t Time) ToProtoTime() *dtpb.Time {
 	switch t.l {
 	case millisecondLayout:
 		tp.Precision = dtpb.Time_MILLISECOND
+		if t.time.Nanosecond()%1000000 != 0 {
+			// the value carries digits finer than a millisecond: the element can represent them
+			tp.Precision = dtpb.Time_MICROSECOND
+		}
 	default:
 		tp.Precision = dtpb.Time_SECOND
 	}
